@@ -260,3 +260,39 @@ package state
 //@   ensures nonces: result == nil ==> (forall a felt.Felt :: in(diff.Nonces, a) || in(diff.DeployedContracts, a) ==> setin(nonceDel, a))
 //@   ensures classes: result == nil ==> (forall a felt.Felt :: in(diff.ReplacedClasses, a) || in(diff.DeployedContracts, a) ==> setin(classDel, a))
 //@   ensures nothing_else: forall a felt.Felt :: (setin(nonceDel, a) ==> old(setin(nonceDel, a)) || in(diff.Nonces, a) || in(diff.DeployedContracts, a)) && (setin(classDel, a) ==> old(setin(classDel, a)) || in(diff.ReplacedClasses, a) || in(diff.DeployedContracts, a))
+
+// ---- storing a block logs EVERY entry of its diff in the history (C03) ------------------------------
+// Historical reads answer from these logs: a slot, nonce or class hash the block's diff mentions gets
+// an entry at this block with the diff's value - also when that value is zero (a cleared slot must
+// read as zero from this block on, not as its previous value). The three writers are trusted to
+// store (contract[, slot], block) -> value; the sets record what was logged.
+//@ ghost var storageLog set[felt.Felt]
+//@ ghost var nonceLog set[felt.Felt]
+//@ ghost var classLog set[felt.Felt]
+//@ func WriteStorageHistory
+//@   trusted
+//@   sets storageLog = setadd(storageLog, slot(*addr, *key))
+//@ func WriteNonceHistory
+//@   trusted
+//@   sets nonceLog = setadd(nonceLog, *addr)
+//@ func WriteClassHashHistory
+//@   trusted
+//@   sets classLog = setadd(classLog, *addr)
+//@ func (*State).writeHistory
+//@   props C03
+//@   arith int
+//@   requires s != nil && diff != nil
+//@   assigns storageLog, nonceLog, classLog
+//@   callsite WriteStorageHistory@*: at_this_block_the_diffs_value: $0 == s.batch && $3 == blockNum && $4 == val
+//@   callsite WriteNonceHistory@*: at_this_block_the_diffs_value: $0 == s.batch && $2 == blockNum && $3 == nonce
+//@   callsite WriteClassHashHistory@*: at_this_block_the_diffs_value: $0 == s.batch && $2 == blockNum && $3 == classHash
+//@   loop 1: invariant contracts_so_far: forall a felt.Felt, k felt.Felt :: visited(a) && in(diff.StorageDiffs[a], k) ==> setin(storageLog, slot(a, k))
+//@   loop 2: invariant earlier_contracts: forall a felt.Felt, k felt.Felt :: visited(1, a) && a != addr && in(diff.StorageDiffs[a], k) ==> setin(storageLog, slot(a, k))
+//@   loop 2: invariant slots_so_far: forall k felt.Felt :: visited(k) ==> setin(storageLog, slot(addr, k))
+//@   loop 3: invariant nonces_so_far: forall a felt.Felt :: visited(a) ==> setin(nonceLog, a)
+//@   loop 4: invariant replaced_so_far: forall a felt.Felt :: visited(a) ==> setin(classLog, a)
+//@   loop 5: invariant deployed_so_far: forall a felt.Felt :: visited(a) ==> setin(classLog, a)
+//@   loop 5: invariant replaced_kept: forall a felt.Felt :: in(diff.ReplacedClasses, a) ==> setin(classLog, a)
+//@   ensures every_slot_logged: result == nil ==> (forall a felt.Felt, k felt.Felt :: in(diff.StorageDiffs, a) && in(diff.StorageDiffs[a], k) ==> setin(storageLog, slot(a, k)))
+//@   ensures every_nonce_logged: result == nil ==> (forall a felt.Felt :: in(diff.Nonces, a) ==> setin(nonceLog, a))
+//@   ensures every_class_hash_logged: result == nil ==> (forall a felt.Felt :: in(diff.ReplacedClasses, a) || in(diff.DeployedContracts, a) ==> setin(classLog, a))
